@@ -154,6 +154,7 @@ class Lib:
         S.append((path(r"^<std::slice::Iter(Mut)?<'a, T> as std::iter::Iterator>::next$"), self.slice_iter_next))
         S.append((path(r"^<std::slice::Iter(Mut)?<'a, T> as std::iter::DoubleEndedIterator>::next_back$"), self.slice_iter_next_back))
         S.append((path(r"^core::slice::<impl \[T\]>::first$"), self.first))
+        S.append((path(r"^<std::slice::Iter<'a, T> as std::iter::Iterator>::(all|any)$"), self.slice_iter_all_any))
         S.append((path(r"^std::vec::Vec::<T, A>::remove$"), self.vec_remove))
         S.append((path(r"^std::vec::Vec::<T, A>::swap_remove$"), self.vec_swap_remove))
         S.append((path(r"^std::vec::Vec::<T, A>::insert$"), self.vec_insert))
@@ -301,6 +302,41 @@ class Lib:
         st.heap[iid] = AIter(a.vec, a.pos + 1, a.end)
         st.emit("elem", a.vec, a.pos)
         return mk_some(rty, Ref(("H", a.vec), (("el", a.pos),)))
+
+    def slice_iter_all_any(self, it, st, inst, args, call):
+        """`iter.all(f)` / `iter.any(f)` over an exactly modelled slice iterator: the closure body is interpreted once per
+        remaining element, front to back, stopping at the first false / true (the contract of Iterator::all / any)."""
+        from .absint import CallThen
+        iid, a0 = self._aiter(it, st, args[0])
+        if a0 is None:
+            return NotImplemented
+        is_all = inst["path"].endswith("::all")
+        bodies = [c for c in (s_["callee"] for s_ in it.p.sites(inst["id"])) if c is not None and it.p.inst[c].get("def_kind") == "Closure"]
+        if len(set(bodies)) != 1:
+            raise Undecided("cannot identify the closure passed to %s" % inst["name"][:80])
+        body = bodies[0]
+        fcell = st.new_obj(args[1])
+
+        def step(it_, st_):
+            a = st_.heap[iid]
+            if a.pos >= a.end:
+                return TRUE if is_all else FALSE
+            st_.heap[iid] = AIter(a.vec, a.pos + 1, a.end)
+            st_.emit("elem", a.vec, a.pos)
+            elem = Ref(("H", a.vec), (("el", a.pos),))
+
+            def then(it2, st2, rv):
+                if not isinstance(rv, Conc):
+                    raise Undecided("closure of %s returned %r" % ("all" if is_all else "any", rv))
+                if is_all and rv.v == 0:
+                    return FALSE
+                if not is_all and rv.v == 1:
+                    return TRUE
+                return step(it2, st2)
+
+            return CallThen(body, [Ref(("H", fcell.id), ()), elem], then)
+
+        return step(it, st)
 
     def slice_iter_next_back(self, it, st, inst, args, call):
         iid, a = self._aiter(it, st, args[0])
